@@ -281,7 +281,7 @@ def match_fields(buf, start, end, fields, ignore_critical=False, repeated=(), kn
         typ = el[0]
         i = next((j for j in range(pos, len(fields)) if fields[j] == typ), None)
         if i is None:
-            if known_in_order and typ in fields:
+            if known_in_order and typ in fields and not (typ == 0x0344 and pos > 0 and fields[pos - 1] == 0x0344):
                 # (NDNLPv2: its own header fields at most once and in order, whatever is done with unknown ones)
                 raise T.Malformed(f'field {typ} repeated or out of order')
             if typ & 1 and not ignore_critical:
